@@ -26,6 +26,7 @@ from __future__ import annotations
 
 import json
 import os
+import sys
 from concurrent.futures import ThreadPoolExecutor
 
 from lib import core
@@ -34,7 +35,8 @@ PROPS = 'EdbVerif/Props/C19.lean'
 REQUIRED = [
     'EdbVerif.C19.C19_lookup', 'EdbVerif.C19.C19_lookup_first', 'EdbVerif.C19.C19_lookup_default',
     'EdbVerif.C19.C19_seq_fold', 'EdbVerif.C19.C19_seq_set', 'EdbVerif.C19.C19_seq_reset',
-    'EdbVerif.C19.C19_seq_add', 'EdbVerif.C19.C19_seq_rem', 'EdbVerif.C19.C19_seq_frame',
+    'EdbVerif.C19.C19_seq_add', 'EdbVerif.C19.C19_seq_set_objs', 'EdbVerif.C19.C19_seq_unique',
+    'EdbVerif.C19.C19_unique_site', 'EdbVerif.C19.C19_seq_rem', 'EdbVerif.C19.C19_seq_frame',
     'EdbVerif.C19.C19_reject', 'EdbVerif.C19.C19_json', 'EdbVerif.C19.C19_json_invariant',
     'EdbVerif.C19.C19_json_reachable', 'EdbVerif.C19.duration_rt',
     'EdbVerif.C19.memory_rt', 'EdbVerif.C19.memory_rt_negative_counterexample',
@@ -78,6 +80,20 @@ class Env:
             F('tags', frozenset[int], default=frozenset()),
             F('flag', bool, default=False),
         ))
+        # a hierarchy like cfg::TestInstanceConfig / subtypes: `name` is exclusive on the parent and
+        # inherited; `token` is exclusive on one subtype (and inherited by the grandchild) only
+        def sub(name, parent, *own):
+            t = types.ConfigTypeSpec(name=name, parent=parent,
+                                     fields=mk(*[f for f in parent.fields.values()], *own))
+            parent.children.append(t)
+            return t
+        self.Prov = types.ConfigTypeSpec(name='Prov', fields=mk(
+            F('name', str, unique=True),
+            F('note', str, default=None),
+        ))
+        self.Smtp = sub('Smtp', self.Prov, F('host', str, default=None), F('token', str, unique=True, default=None))
+        self.Web = sub('Web', self.Prov, F('url', str, default=None))
+        self.Smtps = sub('Smtps', self.Smtp, F('port', int, default=None))
         S = spec.Setting
         self.spec = spec.FlatSpec(
             S('b', type=bool, default=True),
@@ -92,6 +108,7 @@ class Env:
             S('obj', type=self.Port, default=None, required=False),
             S('objs', type=self.Port, set_of=True, default=frozenset()),
             S('auths', type=self.Auth, set_of=True, default=frozenset()),
+            S('provs', type=self.Prov, set_of=True, default=frozenset()),
         )
         self.names = list(self.spec)
 
@@ -162,7 +179,7 @@ class Env:
                      'sc': str(sv.scope)}] for k, sv in m.items()]
 
     def spec_json(self):
-        def tspec(t):
+        def tbase(t):
             fs = []
             for n, f in t.fields.items():       # the REAL iteration order of the fields map
                 d = {'name': n, 'ty': self.fty(f.type), 'unique': f.unique}
@@ -170,6 +187,15 @@ class Env:
                     d['default'] = self.enc_fval(f.default)
                 fs.append(d)
             return {'name': t.name, 'fields': fs}
+
+        def tspec(t):
+            d = tbase(t)
+            d['ancestors'] = []
+            p = t.parent
+            while p is not None:
+                d['ancestors'].append(tbase(p))
+                p = p.parent
+            return d
         out = []
         for n in self.spec:
             s = self.spec[n]
@@ -177,7 +203,7 @@ class Env:
                 else {'sc': self.sty(s.type)}
             out.append({'name': n, 'ty': ty, 'setOf': s.set_of,
                         'default': self.enc_val_for(n, s.default)})
-        return {'settings': out}
+        return {'settings': out, 'types': [tspec(t) for t in self.spec._types_by_name.values()]}
 
 
 def enc_jv(v):
@@ -367,6 +393,37 @@ def gen_auth(rng, full=True):
     return d
 
 
+TOKENS = ['t1', 't2']
+
+
+def gen_prov(rng, full=True):
+    tn = rng.choice(['Prov', 'Smtp', 'Web', 'Smtps', 'Smtp', 'Web'])
+    d = {'_tname': tn} if (tn != 'Prov' or rng.random() < 0.5) else {}
+    if full or rng.random() < 0.8:
+        d['name'] = rng.choice(DBS)
+    if rng.random() < 0.3:
+        d['note'] = rng.choice(['n', None, 'm'])
+    if tn in ('Smtp', 'Smtps'):
+        if rng.random() < 0.5:
+            d['token'] = rng.choice(TOKENS + [None])
+        if rng.random() < 0.3:
+            d['host'] = rng.choice(['h1', 'h2'])
+    if tn == 'Smtps' and rng.random() < 0.4:
+        d['port'] = rng.choice([25, 465, '25'])
+    if tn == 'Web' and rng.random() < 0.4:
+        d['url'] = rng.choice(['u1', 5])
+    r = rng.random()
+    if r < 0.04:
+        d['token'] = 't1'           # unknown field unless the type is Smtp/Smtps
+    elif r < 0.06:
+        d['_tname'] = rng.choice(['Port', 'Nope'])
+    if rng.random() < 0.3:
+        items = list(d.items())
+        rng.shuffle(items)
+        d = dict(items)
+    return d
+
+
 def gen_value(rng, env, name, code):
     """a value for an op on setting `name`: valid / boundary / invalid mix"""
     inval = rng.random() < 0.15
@@ -408,7 +465,7 @@ def gen_value(rng, env, name, code):
         if rng.random() < 0.02:
             return {safe_str(rng, 1, 3): 1 for _ in range(rng.randint(0, 3))}
         return [rng.choice(['a', 'b', '', 'a b', safe_str(rng)]) for _ in range(rng.randint(0, 4))]
-    mk = gen_auth if name == 'auths' else gen_port
+    mk = gen_auth if name == 'auths' else gen_prov if name == 'provs' else gen_port
     if code == 'SET':
         if inval:
             return rng.choice([5, None, 'ab', '', {}, {'a': 1}, [5], True])
@@ -429,7 +486,7 @@ def gen_sequence(rng, env, maxlen=25):
         name = rng.choice(focus) if rng.random() < 0.8 else rng.choice(env.names)
         if rng.random() < 0.02:
             name = rng.choice(['nope', '', 'B'])
-        is_obj = name in ('obj', 'objs', 'auths')
+        is_obj = name in ('obj', 'objs', 'auths', 'provs')
         if is_obj:
             code = rng.choices(['SET', 'RESET', 'ADD', 'REM'], [2, 1, 5, 3])[0]
         else:
@@ -452,7 +509,10 @@ def gen_exhaustive(env, depth):
                   ['ADD', sc, 'objs', {'database': 'b', 'port': 1, 'address': ['x']}],
                   ['REM', sc, 'objs', {'database': 'a'}],
                   ['SET', sc, 'objs', [{'database': 'a', 'port': 2}, {'database': 'a', 'port': 3}]],
-                  ['RESET', sc, 'objs', None]]
+                  ['RESET', sc, 'objs', None],
+                  ['ADD', sc, 'provs', {'_tname': 'Smtp', 'name': 'a', 'token': 't1'}],
+                  ['ADD', sc, 'provs', {'_tname': 'Web', 'name': 'a'}],
+                  ['ADD', sc, 'provs', {'_tname': 'Smtps', 'name': 'b', 'token': 't1'}]]
     import itertools
     for d in range(1, depth + 1):
         for seq in itertools.product(alpha, repeat=d):
@@ -492,7 +552,7 @@ def rejection_kind(op, e, env):
     cause = ''
     if isinstance(e, KeyError):
         vals = op[3] if isinstance(op[3], list) else [op[3]]
-        known = {'Port', 'Auth'}
+        known = {'Port', 'Auth', 'Prov', 'Smtp', 'Web', 'Smtps'}
         if any(isinstance(v, dict) and isinstance(v.get('_tname'), str) and v['_tname'] not in known
                for v in vals):
             cause = ':unknown-_tname'
@@ -524,7 +584,7 @@ def run_sequence(env, real, ops, ctx, stats, tag):
                 k = rejection_kind(op, e, env)
                 stats['non_edgedb'][k] = stats['non_edgedb'].get(k, 0) + 1
             # S: REM of a value the coercion accepts never fails (absence is not an error)
-            if code == 'REM' and name in ('objs', 'auths'):
+            if code == 'REM' and name in ('objs', 'auths', 'provs'):
                 try:
                     o = env.ops.Operation(env.ops.OpCode(code), env.qltypes.ConfigScope(scope), name,
                                           json.loads(json.dumps(value)))
@@ -564,18 +624,16 @@ def run_sequence(env, real, ops, ctx, stats, tag):
                     if not (isinstance(new, frozenset) and old <= new and len(new) == len(old) + 1):
                         ctx.fail(f'oracle:add:{name}', 'ADD is not the insertion of one new element',
                                  {'ops': ops[:idx + 1]})
-                    else:
-                        for o in new:
-                            for f in o._tspec.fields.values():
-                                if f.unique and getattr(o, f.name) is not None and sum(
-                                        1 for p in new if p._tspec == o._tspec and
-                                        getattr(p, f.name) == getattr(o, f.name)) > 1:
-                                    ctx.fail(f'oracle:add-unique:{name}.{f.name}',
-                                             'two elements share a unique field', {'ops': ops[:idx + 1]})
                 else:
                     if not (isinstance(new, frozenset) and new <= old and len(old) - len(new) <= 1):
                         ctx.fail(f'oracle:rem:{name}', 'REM is not the removal of at most one element',
                                  {'ops': ops[:idx + 1]})
+            # S: exclusivity across the declared type hierarchy, after every accepted ADD / SET on objects
+            if code in ('ADD', 'SET') and name in after and isinstance(after[name].value, frozenset):
+                for fname, ta, tb_, v in exclusive_clashes(after[name].value, env.types.CompositeConfigType):
+                    ctx.fail(f'oracle:exclusive:{name}.{fname}',
+                             f'two stored objects ({ta}, {tb_}) agree on the exclusive field {fname!r} = {v!r}',
+                             {'ops': ops[:idx + 1]})
             maps[scope] = after
         # S: independent validity of SET values for the plain kinds
         if code == 'SET' and name in PLAIN:
@@ -638,6 +696,36 @@ def run_sequence(env, real, ops, ctx, stats, tag):
     return {'steps': steps, 'look': look, 'final': final}
 
 
+def unique_sites(tspec, fname):
+    """names of the types of the declared chain self, parent, … on which `fname` is exclusive"""
+    out = set()
+    t = tspec
+    while t is not None:
+        f = t.fields.get(fname)
+        if f is not None and f.unique:
+            out.add(t.name)
+        t = t.parent
+    return out
+
+
+def exclusive_clashes(objs, cls):
+    """pairs of stored objects whose types share an ancestor-or-self declaring a field exclusive
+    and that agree on that field (None = unset does not count); independent of the code under test"""
+    objs = [o for o in objs if isinstance(o, cls)]
+    out = []
+    for i, a in enumerate(objs):
+        for b in objs[i + 1:]:
+            for fname in a._tspec.fields:
+                if fname not in b._tspec.fields:
+                    continue
+                va, vb = getattr(a, fname, None), getattr(b, fname, None)
+                if va is None or vb is None or va != vb:
+                    continue
+                if unique_sites(a._tspec, fname) & unique_sites(b._tspec, fname):
+                    out.append((fname, a._tspec.name, b._tspec.name, va))
+    return out
+
+
 PLAIN = {'b': bool, 'i': int, 's': str, 'ints': int, 'strs': str}
 
 
@@ -654,7 +742,7 @@ def plain_valid(name, value):
 
 
 def _kind(name):
-    return {'obj': 'single-object', 'objs': 'object-set', 'auths': 'object-set', 'mem': 'memory',
+    return {'obj': 'single-object', 'objs': 'object-set', 'auths': 'object-set', 'provs': 'object-set', 'mem': 'memory',
             'i': 'int', 'ints': 'int-set', 'd': 'duration', 'dn': 'duration'}.get(name, name)
 
 
@@ -948,8 +1036,8 @@ def run(ctx: core.Ctx):
         'distinct_nontrivial': nontrivial,
         'rule': 'op sequences (1..25 ops; SET/RESET/ADD/REM x 3 scopes x 12 settings of kinds '
                 'bool/int/str/enum/duration/duration-with-None-default/memory/set-of-int/set-of-str/'
-                'single object/set of object x2; values valid, boundary, invalid) + exhaustive sequences '
-                'over a 24-letter alphabet up to depth 2 (quick) / 3 (thorough) + corpus; '
+                'single object/set of object x3 incl. a 3-level type hierarchy with inherited and subtype-only exclusive fields; values valid, boundary, invalid) + exhaustive sequences '
+                'over a 30-letter alphabet up to depth 2 (quick) / 3 (thorough) + corpus; '
                 'distinct = distinct protocol line, non-trivial = at least one op succeeded. '
                 'Duration/Memory: all |us| <= 2000, unit multiples +-1, random 64-bit values, '
                 'random texts of all surface forms',
@@ -1119,6 +1207,7 @@ class Level2:
         self.staeval, self.irast, self.qltypes = staeval, irast, qltypes
         self.qlparser, self.qlcompiler = qlparser, qlcompiler
         self.spec = config.load_spec_from_schema(self.std)
+        self.rejected = {}
 
     def kind(self, name):
         s = self.spec[name]
@@ -1156,9 +1245,11 @@ class Level2:
         if k == 'object:cfg::TestSessionConfig':
             return {'name': rng.choice(TRICKY)}
         if k == 'object:cfg::TestInstanceConfig':
+            # parent and subtype share the inherited exclusive `name`: draw it from a small pool
+            nm = rng.choice(['n1', 'n2', 'n3']) if rng.random() < 0.7 else rng.choice(TRICKY)
             if rng.random() < 0.5:
-                return {'name': rng.choice(TRICKY)}
-            return {'_tname': 'cfg::TestInstanceConfigStatTypes', 'name': rng.choice(TRICKY),
+                return {'name': nm}
+            return {'_tname': 'cfg::TestInstanceConfigStatTypes', 'name': nm,
                     'durprop': rng.choice([None, 'PT5S', 'PT-0.5S', 'PT1H2M3.000004S'])}
         if k == 'object:cfg::Auth':
             d = {'priority': rng.choice([0, 1, 2, 3, -1, 10 ** 6])}
@@ -1200,7 +1291,9 @@ class Level2:
         ops = []
         for n in rng.sample(names, min(len(names), rng.randint(1, 6))):
             if self.kind(n).startswith('object:'):
-                for _ in range(rng.randint(1, 3)):
+                if rng.random() < 0.25:
+                    ops.append(['SET', scope, n, [self.gen_value(rng, n) for _ in range(rng.randint(0, 3))]])
+                for _ in range(rng.randint(1, 4)):
                     ops.append(['ADD', scope, n, self.gen_value(rng, n)])
                 if rng.random() < 0.2:
                     ops.append(['REM', scope, n, ops[-1][3]])
@@ -1210,14 +1303,22 @@ class Level2:
                     ops.append(['RESET', scope, n, None])
         return ops
 
-    def build(self, ops):
+    def build(self, ops, ctx=None):
         m = self.im.Map()
-        for code, scope, name, value in ops:
+        for i, (code, scope, name, value) in enumerate(ops):
             try:
                 m = self.ops.Operation(self.ops.OpCode(code), self.qltypes.ConfigScope(scope), name,
                                        json.loads(json.dumps(value))).apply(self.spec, m)
             except Exception:     # noqa: BLE001 – a rejected op: the storage stays as it is
-                pass
+                self.rejected[type(sys.exc_info()[1]).__name__] = \
+                    self.rejected.get(type(sys.exc_info()[1]).__name__, 0) + 1
+                continue
+            # S: exclusivity across the declared hierarchy (cfg::TestInstanceConfig and its subtype, …)
+            if ctx is not None and code in ('ADD', 'SET') and name in m and isinstance(m[name].value, frozenset):
+                for fname, ta, tb_, v in exclusive_clashes(m[name].value, self.types.CompositeConfigType):
+                    ctx.fail(f'oracle:exclusive:l2:{name}.{fname}',
+                             f'two stored objects ({ta}, {tb_}) agree on the exclusive field {fname!r} = {v!r}',
+                             {'l2ops': ops[:i + 1]})
         return m
 
     def replay(self, text):
@@ -1253,7 +1354,7 @@ def edgeql_replay_leg(ctx, replay_cases=None):
         [l2.gen_ops(rng) for _ in range(ctx.budget(250, 8000))]
     n_stmt, n_ok, n_empty, kinds, samples = 0, 0, 0, {}, []
     for ops in cases:
-        m = l2.build(ops)
+        m = l2.build(ops, ctx)
         if not m:
             n_empty += 1
             continue
@@ -1311,12 +1412,22 @@ def edgeql_replay_leg(ctx, replay_cases=None):
         probes.append(o)
     return {'storages': len(cases) - n_empty, 'statements': n_stmt, 'round_trips_equal': n_ok,
             'finding_reachability_probes': probes if replay_cases is None else [],
-            'settings_by_kind': kinds, 'bridge_setup_s': setup_s, 'std_schema': l2.std_info,
+            'settings_by_kind': kinds, 'rejections_by_exception_class': l2.rejected, 'bridge_setup_s': setup_s, 'std_schema': l2.std_info,
             'samples': samples}
 
 
 # hand-written sequences (documented corners; always run first)
 CORPUS = [
+    # sibling subtypes sharing the inherited exclusive `name`; `token` exclusive on a subtype only
+    [['ADD', 'SESSION', 'provs', {'_tname': 'Smtp', 'name': 'a'}], ['ADD', 'SESSION', 'provs', {'_tname': 'Web', 'name': 'a'}],
+     ['ADD', 'SESSION', 'provs', {'_tname': 'Web', 'name': 'b'}], ['ADD', 'SESSION', 'provs', {'name': 'b'}],
+     ['ADD', 'SESSION', 'provs', {'_tname': 'Smtps', 'name': 'c', 'token': 't1'}],
+     ['ADD', 'SESSION', 'provs', {'_tname': 'Smtp', 'name': 'd', 'token': 't1'}],
+     ['ADD', 'SESSION', 'provs', {'_tname': 'Smtp', 'name': 'd', 'token': 't2'}]],
+    [['SET', 'DATABASE', 'provs', [{'_tname': 'Smtp', 'name': 'a'}, {'_tname': 'Web', 'name': 'a'}]],
+     ['SET', 'DATABASE', 'provs', [{'_tname': 'Smtp', 'name': 'a', 'token': 't1'}, {'_tname': 'Smtps', 'name': 'b', 'token': 't1'}]],
+     ['SET', 'DATABASE', 'provs', [{'_tname': 'Smtp', 'name': 'a', 'token': 't1'}, {'_tname': 'Web', 'name': 'b'},
+                                   {'_tname': 'Smtps', 'name': 'c', 'token': 't2'}, {'name': 'd'}]]],
     [['SET', 'SESSION', 'i', 11], ['SET', 'SESSION', 'i', '42'], ['SET', 'SESSION', 'i', 42],
      ['SET', 'SESSION', 'ints', [42, 43]]],
     [['ADD', 'INSTANCE', 'objs', {'database': 'f1', 'port': 1}],
